@@ -118,6 +118,8 @@ type FS struct {
 	TraceOn                            bool
 	Cwd                                string
 	WriteCount, SyncCount, RenameCount int
+	// ReadCount: Read calls per inode (harness oracles: "has the reader looked at this file since ...")
+	ReadCount map[uint64]int
 }
 
 const fsKey = "simos.fs"
@@ -616,6 +618,10 @@ func (fl *File) Read(b []byte) (int, error) {
 	}
 	simrt.IOPoint()
 	fl.fs.op("read", fl.name)
+	if fl.fs.ReadCount == nil {
+		fl.fs.ReadCount = map[uint64]int{}
+	}
+	fl.fs.ReadCount[fl.n.ino]++
 	if len(b) == 0 {
 		return 0, nil
 	}
